@@ -17,8 +17,9 @@ type FNode struct {
 	Val   any // leaf value: the field's Go type, []string for "in", string for "has"
 	Kids  []*FNode
 
-	NilEmpty bool // pass an empty list value as a nil slice
-	Group    bool // a node whose value is a list of filters under an operator that is neither "and" nor "or"
+	NilEmpty bool   // pass an empty list value as a nil slice
+	Col      string // collation named by the node (the library carries it along, filtering does not depend on it)
+	Group    bool   // a node whose value is a list of filters under an operator that is neither "and" nor "or"
 }
 
 // Build converts the model into the library's Filter value (fresh copies of
@@ -30,7 +31,7 @@ func (n *FNode) Build() *jsonapi.Filter {
 			kids[i] = k.Build()
 		}
 
-		return &jsonapi.Filter{Op: n.Op, Val: kids}
+		return &jsonapi.Filter{Op: n.Op, Val: kids, Col: n.Col}
 	}
 
 	v := Clone(n.Val)
@@ -40,7 +41,7 @@ func (n *FNode) Build() *jsonapi.Filter {
 		v = []string(nil)
 	}
 
-	return &jsonapi.Filter{Field: n.Field, Op: n.Op, Val: v}
+	return &jsonapi.Filter{Field: n.Field, Op: n.Op, Val: v, Col: n.Col}
 }
 
 func (n *FNode) String() string {
@@ -394,6 +395,16 @@ func FilterLeaf(t *rapid.T, ts *TypeSpec, vals map[string]any, label string) *FN
 	return &FNode{Op: op, Field: r.FromName, Val: v, NilEmpty: rapid.Bool().Draw(t, label+"-nilempty")}
 }
 
+// drawCol: one node in six names a collation (what a URL's "c" member ends up
+// as); the verdict is the same with or without it.
+func drawCol(t *rapid.T, label string) string {
+	if rapid.IntRange(0, 5).Draw(t, label+"-hascol") != 0 {
+		return ""
+	}
+
+	return rapid.SampledFrom([]string{"nocase", "binary", "en_US", "utf8 ci", "unknown", " "}).Draw(t, label+"-col")
+}
+
 // FilterTree draws a well-typed filter tree.
 func FilterTree(t *rapid.T, ts *TypeSpec, vals map[string]any, depth int, label string) *FNode {
 	if depth <= 1 || len(ts.Attrs)+len(ts.Rels) > 0 && rapid.IntRange(0, 2).Draw(t, label+"-leaf") == 0 {
@@ -401,10 +412,13 @@ func FilterTree(t *rapid.T, ts *TypeSpec, vals map[string]any, depth int, label 
 			return &FNode{Op: rapid.SampledFrom([]string{"and", "or"}).Draw(t, label+"-emptyop")}
 		}
 
-		return FilterLeaf(t, ts, vals, label)
+		leaf := FilterLeaf(t, ts, vals, label)
+		leaf.Col = drawCol(t, label)
+
+		return leaf
 	}
 
-	n := &FNode{Op: rapid.SampledFrom([]string{"and", "or"}).Draw(t, label+"-op")}
+	n := &FNode{Op: rapid.SampledFrom([]string{"and", "or"}).Draw(t, label+"-op"), Col: drawCol(t, label+"-group")}
 
 	// A list of filters under an operator nobody knows allows nothing.
 	if rapid.IntRange(0, 11).Draw(t, label+"-unkgroup") == 0 {
